@@ -37,6 +37,9 @@ type ChiSquaredDistribution struct {
 /* -------------------------------------------------------------------------- */
 
 func NewChiSquaredDistribution(t ScalarType, k_ float64) (*ChiSquaredDistribution, error) {
+  if k_ <= 0.0 {
+    return nil, fmt.Errorf("invalid value for parameter k: %f", k_)
+  }
   // we cannot differentiate with respect to k, so use bare reals
   k  := NewScalar(t, k_)
   c1 := NewScalar(t, 1.0)
